@@ -1073,6 +1073,35 @@ theorem C10_delivered_integral (e : Event) (hv : e.Valid) (T : ℚ) (hT : 0 ≤ 
 
 end integral
 
+/-- every predictive model wrapped by an averaging model is given the regimen itself -/
+theorem C10_averaged_passthrough (k : ℕ) (dose start duration : ℚ) (period : Option ℚ)
+    (num : Option ℤ) :
+    (averagedRegimenToEvents k dose start duration period num).length = k ∧
+    ∀ e ∈ averagedRegimenToEvents k dose start duration period num,
+      e = regimenToEvent dose start duration period num := by
+  constructor
+  · simp [averagedRegimenToEvents]
+  · intro e he
+    simp only [averagedRegimenToEvents, List.mem_map] at he
+    obtain ⟨_, _, rfl⟩ := he
+    rfl
+
+/-- **Only the last route counts.** After any sequence of `set_administration` calls the equations
+    are those of the last call applied to the model file — also when only the dosed variable
+    differs from the call before (same compartment, same direct / indirect flag). -/
+theorem C10_readministration (s : PKState) (cs : List AdminCall) (c : AdminCall) :
+    ((cs ++ [c]).foldl adminStep s).current =
+      setAdministration s.vanilla c.amount c.depot c.ka c.rate c.direct ∧
+    ((cs ++ [c]).foldl adminStep s).vanilla = s.vanilla := by
+  have hv : ∀ (l : List AdminCall) (t : PKState), (l.foldl adminStep t).vanilla = t.vanilla := by
+    intro l
+    induction l with
+    | nil => intro t; rfl
+    | cons x xs ih => intro t; rw [List.foldl_cons, ih]; rfl
+  rw [List.foldl_append]
+  simp only [List.foldl_cons, List.foldl_nil, adminStep]
+  exact ⟨by rw [hv], hv cs s⟩
+
 /-! ## non-vacuity -/
 
 example : regimenToEvent 2 (1/2) (1/4) (some 1) none = .ok ⟨8, 1/2, 1/4, 1, 0⟩ := by
